@@ -504,7 +504,12 @@ spec fn same_record(a: Record, b: Record) -> bool { a.typ == b.typ && (a.cont is
 //@@ before /Ok\(s\)/
     proof { lemma_dbcs_units(f0, n0, hb0); }
 //@@ before /return Err\(XlsError::EoStream/
-                proof { assert(f1.len() == 1); assert(dbcs_segs(f1, len1, hb1) is None); }
+                proof {
+                    //# C06.dbcs_empty_continue_rejected
+                    // no further fragment, or a continuation without flag byte
+                    assert(f1.len() == 1 || f1[1].len() == 0);
+                    assert(dbcs_segs(f1, len1, hb1) is None);
+                }
 //@@ end
 
 // =====================================================================================================
@@ -564,15 +569,6 @@ pub open spec fn sst_item(e: XlsEncoding, f: Seq<Seq<u8>>) -> Option<(Seq<char>,
 /// all fragments of one workbook stream lie in one allocation, so together they hold fewer than 2^63 bytes (Rust allocation limit)
 pub open spec fn mem_bounded(f: Seq<Seq<u8>>) -> bool { total(f) <= 0x7fff_ffff_ffff_ffff }
 
-/// the fragment ends inside a string header (after the 3 fixed bytes): malformed. The real code panics there (C06 finding), i.e. it
-/// never returns, so nothing can be promised about its result.
-pub open spec fn hdr_truncated(f: Seq<Seq<u8>>) -> bool {
-    f.len() > 0 && {
-        let f1 = if f[0].len() == 0 && f.len() > 1 { next_frag(f) } else { f };
-        f1[0].len() >= 3 && str_hdr(f1[0]) is None
-    }
-}
-
 proof fn lemma_neg_i32_as_usize(x: i32)
     requires x < 0,
     ensures (x as usize) >= 0xffff_ffff_8000_0000usize,
@@ -591,7 +587,7 @@ use super::*;
         //# C12.sst_item_cursor
         sst_item(*encoding, frags(*old(r))) is Some ==> res is Ok && frags(*final(r)) == sst_item(*encoding, frags(*old(r)))->Some_0.1,
         //# C12.sst_item_err_iff_malformed
-        mem_bounded(frags(*old(r))) && !hdr_truncated(frags(*old(r))) ==> (res is Err <==> sst_item(*encoding, frags(*old(r))) is None),
+        mem_bounded(frags(*old(r))) ==> (res is Err <==> sst_item(*encoding, frags(*old(r))) is None),
         //# C12.sst_item_frame
         same_record(*old(r), *final(r)),
 //@@ body
@@ -600,8 +596,16 @@ use super::*;
     let ghost f0 = frags(*r);
     let ghost e = *encoding;
     proof { lemma_frags_head(r0); }
-//@@ before /return Err\(XlsError::Len/
+//@@ before /return Err\(XlsError::Len/#0of3
         proof { lemma_frags_head(*r); }
+//@@ before /return Err\(XlsError::Len/#1of3
+            //# C06.rich_header_crun_truncated
+            // the fragment ends inside the header: cRun is announced (fRichSt) but not there
+            proof { assert(d.len() < 5 && d[2] & 0x8 != 0); assert(str_hdr(d) is None); }
+//@@ before /return Err\(XlsError::Len/#2of3
+            //# C06.rich_header_cbextrst_truncated
+            // the fragment ends inside the header: cbExtRst is announced (fExtSt) but not (completely) there
+            proof { assert(d[2] & 0x4 != 0 && d.len() < (if d[2] & 0x8 != 0 { 9int } else { 7int })); assert(str_hdr(d) is None); }
 //@@ before /let cch = /
     let ghost r1 = *r;
     let ghost f1 = frags(*r);
@@ -709,18 +713,6 @@ proof fn lemma_sst_item_total(e: XlsEncoding, f: Seq<Seq<u8>>)
         lemma_skip_spec_total(g2, h.cbext as nat);
     }
 }
-/// among the first n strings from cursor f (as far as they can be read) one has a header cut off by the end of its fragment
-/// (the real code panics there: C06 finding, so nothing can be said about its result)
-pub open spec fn items_truncated(e: XlsEncoding, f: Seq<Seq<u8>>, n: nat) -> bool
-    decreases n
-{
-    n > 0 && (hdr_truncated(f) || (sst_item(e, f) is Some && items_truncated(e, sst_item(e, f)->Some_0.1, (n - 1) as nat)))
-}
-proof fn lemma_items_truncated_step(e: XlsEncoding, f: Seq<Seq<u8>>, n: nat)
-    requires n > 0, !items_truncated(e, f, n),
-    ensures !hdr_truncated(f), sst_item(e, f) is Some ==> !items_truncated(e, sst_item(e, f)->Some_0.1, (n - 1) as nat),
-{
-}
 proof fn lemma_sst_items_back(e: XlsEncoding, f: Seq<Seq<u8>>, n: nat)
     requires n > 0, sst_item(e, f) is Some, sst_items(e, sst_item(e, f)->Some_0.1, (n - 1) as nat) is Some,
     ensures sst_items(e, f, n) is Some,
@@ -744,14 +736,12 @@ use super::super::*;
         //# C06.sst_negative_count_rejected
         old(r).data@.len() >= 8 && sst_count(old(r).data@) < 0 ==> res is Err,
         //# C12.sst_err_iff_malformed
-        // apart from the inputs on which the real code panics (a string header cut off: C06 finding), a table is rejected iff it is malformed
-        mem_bounded(frags(*old(r))) && (old(r).data@.len() >= 8 && sst_count(old(r).data@) >= 0
-                ==> !items_truncated(*encoding, adv(frags(*old(r)), 8), sst_count(old(r).data@) as nat))
-            ==> (res is Err <==> sst_spec(*encoding, frags(*old(r))) is None),
+        // a table is rejected iff it is malformed
+        mem_bounded(frags(*old(r))) ==> (res is Err <==> sst_spec(*encoding, frags(*old(r))) is None),
         //# C12.sst_frame
         same_record(*old(r), *final(r)),
 //@@ body
-    hide(sst_item); hide(total); hide(frags); hide(hdr_truncated);
+    hide(sst_item); hide(total); hide(frags);
     let ghost r0 = *r;
     let ghost f0 = frags(*r);
     let ghost e = *encoding;
@@ -765,9 +755,13 @@ use super::super::*;
     //# C12.sst_count_field
     // the number of strings is cstUnique (bytes 4..8, a non-negative signed integer), not cstTotal
     assert(len == sst_count(r0.data@) && sst_count(r0.data@) >= 0);
+//@@ replace /let mut sst = Vec::with_capacity\((.*?)\);/ names the argument of the reservation (`let`-binding of an argument expression: same evaluation order, same value) so that the allocation bound is asserted on the value actually passed
+let __cap: usize = \g<1>;
+    let mut sst = Vec::with_capacity(__cap);
+//@@ after /let mut sst = [^;]*;/
     //# C06.sst_alloc_bound
-    // allocation: every string of the table occupies at least 3 bytes, so a count the record (with its continuations) can hold is at most a third of its size
-    assert(3 * len <= total(f0));
+    // allocation: every string of the table occupies at least 3 bytes; no more entries are reserved than the record can hold, whatever count it declares
+    assert(3 * __cap <= total(f0)) by { broadcast use stdax::axiom_min_usize; lemma_total_unfold(f0); };
 //@@ before /for _ in /
     let ghost cnt = sst_count(r0.data@);
     let ghost f8 = frags(*r);
@@ -791,9 +785,8 @@ use super::super::*;
             it.index@ <= len,
             f0.len() >= 1 && f0[0].len() >= 8 && f8 == adv(f0, 8) && cnt == sst_count(f0[0]),
             ts.len() == sst@.len(),
-            mem_bounded(f0) && !items_truncated(e, f8, cnt as nat) ==>
+            mem_bounded(f0) ==>
                 total(frags(*r)) <= total(f0)
-                && !items_truncated(e, frags(*r), (cnt - it.index@) as nat)
                 && (sst_items(e, frags(*r), (cnt - it.index@) as nat) is Some ==> sst_items(e, f8, cnt as nat) is Some),
             sst_items(e, f8, cnt as nat) is Some ==> sst_items(e, frags(*r), (cnt - it.index@) as nat) is Some
                 && sst_items(e, f8, cnt as nat)->Some_0.0 == ts + sst_items(e, frags(*r), (cnt - it.index@) as nat)->Some_0.0
@@ -807,7 +800,6 @@ use super::super::*;
                 lemma_frags_head(*r);
                 lemma_sst_items_step(e, fi, ni);
                 lemma_sst_item_total(e, fi);
-                if !items_truncated(e, fi, ni) { lemma_items_truncated_step(e, fi, ni); }
             }
         }
 //@@ after /sst\.push\([^;]*;/
@@ -825,8 +817,8 @@ use super::super::*;
             } else {
                 ts = ts0.push(Seq::empty());
             }
-            if mem_bounded(f0) && !items_truncated(e, f8, cnt as nat) {
-                // the callee returned Ok on a cursor that is neither oversized nor cut inside a header: the string was well-formed
+            if mem_bounded(f0) {
+                // the callee returned Ok on a cursor that is not oversized: the string was well-formed
                 assert(sst_item(e, fi) is Some);
                 if sst_items(e, frags(*r), (ni - 1) as nat) is Some { lemma_sst_items_back(e, fi, ni); }
             }
